@@ -9,6 +9,7 @@ structure DState where
   lru : Option (Lru.Cache Nat Nat) := some (Lru.new 1)   -- `none` after a modelled nil dereference
   cfg : Config := { hasUDP := false, hasTCP := true, cap := 1 }
   st : State := {}
+  cst : CState := {}
 
 def showEntries (l : List (Nat × Nat) × Bool) : String :=
   let body := if l.1.isEmpty then "-" else ",".intercalate (l.1.map (fun (k, v) => s!"{k}={v}"))
@@ -154,6 +155,15 @@ def showOut (o : LookupOut) : String :=
     | .fail => "fail a=- aaaa=- exp=zero"
   s!"{head} t={o.st.now} {showSend o.send}"
 
+def showEv (ev : Option CEvent) (dflt : String) : String :=
+  match ev with
+  | none => dflt
+  | some e => match e.out with
+    | .hit r => s!"hit {showRes r}"
+    | .fresh r => s!"fresh {showRes r}"
+    | .stale r => s!"stale {showRes r}"
+    | .fail => "fail a=- aaaa=- exp=zero"
+
 def stepC17 (s : DState) (line : String) : DState × String :=
   match fields line with
   | "lru" :: "new" :: [n] => match n.toInt? with
@@ -171,6 +181,20 @@ def stepC17 (s : DState) (line : String) : DState × String :=
     | some gap, some up =>
       let o := lookup s.cfg { s.st with now := s.st.now + gap } name up
       ({ s with st := o.st }, showOut o)
+    | _, _ => (s, "bad-op")
+  | ["conc", "new", cap] => match cap.toInt? with
+    | some cap =>
+      ({ s with cfg := { hasUDP := false, hasTCP := true, cap := (Lru.new (K := Nat) (V := Nat) cap).cap }, cst := {} }, "ok")
+    | none => (s, "bad-op")
+  | ["conc", "probe", tid, name, now] => match tid.toNat?, now.toNat? with
+    | some tid, some now =>
+      let (cs, ev) := cstep s.cfg s.cst (.probe tid name now)
+      ({ s with cst := cs }, showEv ev "pending")
+    | _, _ => (s, "bad-op")
+  | "conc" :: "finish" :: tid :: toks => match tid.toNat?, pUpstream toks with
+    | some tid, some up =>
+      let (cs, ev) := cstep s.cfg s.cst (.finish tid up)
+      ({ s with cst := cs }, showEv ev "noop")
     | _, _ => (s, "bad-op")
   | ["dns", "cache"] => (s, showAddrs (s.st.cache.map (fun (k, r) => s!"{k}:{showExp r.exp}")))
   | _ => (s, "bad-op")
